@@ -7,8 +7,11 @@ package main
 // mismatch between model and code.
 
 import (
+	"context"
+	"errors"
 	"fmt"
 	"io"
+	"net"
 	"math/rand"
 	"os"
 	"path/filepath"
@@ -232,6 +235,7 @@ func cctWait(wg *sync.WaitGroup, d time.Duration) bool {
 func runCCT(c *Ctx) {
 	c.Rule("kind live: a real Client against a real os-backed server over net.Pipe, 2-12 goroutines each issuing 4-12 calls (Lstat, ReadDir, Create+Write+Close, Open+ReadAt+Close, Rename, Remove) on one Client; the transport is cut (client end closed, server end closed, or never) after a seeded number of replies; " +
 		"kind held: a Client on a reader that delivers the version packet and then blocks, and a writer that accepts everything; 0-6 calls are in flight, one request with an unbuffered result channel is registered through the verif hook so that the receiver's broadcast stops inside its critical section, the reader ends, 1-6 more calls are started while the broadcast is held, then it is released. " +
+		"kind cancel: a peer that holds every reply; one ReadDirContext is cancelled while its OPENDIR is outstanding, 1-4 other calls are outstanding; the peer then answers the abandoned request first and the others in a seeded order: every other call must get the reply produced for its own request. " +
 		"The connection's trace points (P putChannel, S- failed send, g getChannel, B broadcast, T result taken) are replayed on coq/Conn/ClientConn.v (obs accepted=1). oracle: every call returns within 10 s; after the cut every call returns an error; the held request fails with ErrSSHFxConnectionLost. " +
 		"non-trivial = at least two requests were registered at the same moment, or (held) a call was started while the broadcast was held")
 	sftp.VerifTraceEnable(true)
@@ -380,6 +384,13 @@ func runCCT(c *Ctx) {
 		c.Stat("cct_registered_" + c02Bucket(maxReg))
 		os.RemoveAll(dir)
 	}
+	nCancel := 40
+	if c.Thorough() {
+		nCancel = 400
+	}
+	for i := 0; i < nCancel; i++ {
+		cctCancelCase(c, i)
+	}
 	hangs := 0
 	for i := 0; i < nHeld; i++ {
 		if hangs >= 6 {
@@ -475,4 +486,188 @@ func runCCT(c *Ctx) {
 			c.Stat("cct_held_put_after_broadcast")
 		}
 	}
+}
+
+// ---------------------------------------------------------------------------------------------------- cancelled calls
+// kind cancel: a scripted peer holds every reply until told. Caller A issues ReadDirContext and its context is cancelled
+// while the OPENDIR is outstanding; callers B1..Bk issue Stat / Lstat / ReadLink with a background context. The peer then
+// answers A's abandoned request first (a server may legally still answer it) and the others afterwards, in a seeded order.
+// Every B must get the reply the peer produced for its own request (sizes are distinct per request); A must have
+// returned the context's error; the connection must still work afterwards.
+type cctHeldPeer struct {
+	conn    net.Conn
+	mu      sync.Mutex
+	pending []*rawResp
+	arrived chan struct{}
+}
+
+func (p *cctHeldPeer) run() {
+	fr, err := readFrame(p.conn)
+	if err != nil || fr.Typ != fxpInit {
+		return
+	}
+	p.conn.Write(frame((&rb{}).u8(fxpVersion).u32(3).b))
+	for {
+		fr, err := readFrame(p.conn)
+		if err != nil {
+			return
+		}
+		p.mu.Lock()
+		p.pending = append(p.pending, fr)
+		p.mu.Unlock()
+		select {
+		case p.arrived <- struct{}{}:
+		default:
+		}
+	}
+}
+
+func (p *cctHeldPeer) waitFor(n int, d time.Duration) bool {
+	deadline := time.After(d)
+	for {
+		p.mu.Lock()
+		k := len(p.pending)
+		p.mu.Unlock()
+		if k >= n {
+			return true
+		}
+		select {
+		case <-p.arrived:
+		case <-time.After(20 * time.Millisecond):
+		case <-deadline:
+			return false
+		}
+	}
+}
+
+func (p *cctHeldPeer) answer(fr *rawResp) {
+	switch fr.Typ {
+	case fxpOpendir, fxpOpen:
+		p.conn.Write(frame(pkt(fxpHandle, fr.ID).str("hd").b))
+	case fxpStat, fxpLstat, fxpFstat:
+		// size = 4000 + request id: every request has its own answer
+		p.conn.Write(frame(pkt(fxpAttrs, fr.ID).u32(1).u64(uint64(4000 + fr.ID)).b))
+	case fxpReadlink, fxpRealpath:
+		name := fmt.Sprintf("/target-%d", fr.ID)
+		p.conn.Write(frame(pkt(fxpName, fr.ID).u32(1).str(name).str(name).u32(0).b))
+	default:
+		p.conn.Write(frame(pkt(fxpStatus, fr.ID).u32(0).str("").str("").b))
+	}
+}
+
+func cctCancelCase(c *Ctx, i int) {
+	c1, c2 := net.Pipe()
+	peer := &cctHeldPeer{conn: c2, arrived: make(chan struct{}, 1)}
+	go peer.run()
+	defer c2.Close()
+	cl, err := sftp.NewClientPipe(c1, c1)
+	if err != nil {
+		c.Diag("cct cancel setup: %v", err)
+		return
+	}
+	rng := rand.New(rand.NewSource(int64(i)*7919 + 5))
+	k := 1 + i%4
+	ctx, cancel := context.WithCancel(context.Background())
+	aErr := make(chan error, 1)
+	go func() { _, err := cl.ReadDirContext(ctx, "/d"); aErr <- err }()
+	problems := []string{}
+	if !peer.waitFor(1, 5*time.Second) {
+		problems = append(problems, "harness: the OPENDIR did not arrive")
+	}
+	type bres struct {
+		kind string
+		val  string
+		err  error
+	}
+	bch := make(chan bres, k)
+	for j := 0; j < k; j++ {
+		go func(j int) {
+			switch (i + j) % 3 {
+			case 0:
+				fi, err := cl.Stat("/s")
+				v := ""
+				if err == nil {
+					v = fmt.Sprint(fi.Size())
+				}
+				bch <- bres{"stat", v, err}
+			case 1:
+				fi, err := cl.Lstat("/l")
+				v := ""
+				if err == nil {
+					v = fmt.Sprint(fi.Size())
+				}
+				bch <- bres{"lstat", v, err}
+			default:
+				s, err := cl.ReadLink("/r")
+				bch <- bres{"readlink", s, err}
+			}
+		}(j)
+	}
+	if !peer.waitFor(1+k, 5*time.Second) {
+		problems = append(problems, "harness: not all requests arrived")
+	}
+	cancel()
+	var aGot error
+	select {
+	case aGot = <-aErr:
+	case <-time.After(5 * time.Second):
+		problems = append(problems, "cancelled-call-hang: ReadDirContext did not return within 5 s of its context being cancelled")
+	}
+	// now the peer answers: the abandoned request first, the others in a seeded order
+	peer.mu.Lock()
+	reqs := append([]*rawResp(nil), peer.pending...)
+	peer.mu.Unlock()
+	if len(reqs) > 0 {
+		peer.answer(reqs[0])
+		rest := reqs[1:]
+		for _, x := range rng.Perm(len(rest)) {
+			peer.answer(rest[x])
+		}
+	}
+	byKind := map[byte]string{fxpStat: "stat", fxpLstat: "lstat", fxpReadlink: "readlink"}
+	want := map[string][]string{}
+	for _, r := range reqs[1:] {
+		if r.Typ == fxpReadlink {
+			want["readlink"] = append(want["readlink"], fmt.Sprintf("/target-%d", r.ID))
+		} else {
+			want[byKind[r.Typ]] = append(want[byKind[r.Typ]], fmt.Sprint(4000+r.ID))
+		}
+	}
+	for j := 0; j < k; j++ {
+		select {
+		case r := <-bch:
+			if r.err != nil {
+				problems = append(problems, fmt.Sprintf("wrong-reply: %s returned %v although the server answered its request", r.kind, r.err))
+				continue
+			}
+			found := false
+			for x, w := range want[r.kind] {
+				if w == r.val {
+					want[r.kind] = append(want[r.kind][:x], want[r.kind][x+1:]...)
+					found = true
+					break
+				}
+			}
+			if !found {
+				problems = append(problems, fmt.Sprintf("wrong-reply: %s returned %q, which the server sent to no outstanding %s request", r.kind, r.val, r.kind))
+			}
+		case <-time.After(5 * time.Second):
+			problems = append(problems, "call-hang: a call whose request was answered did not return within 5 s")
+		}
+	}
+	if aGot != nil && !errors.Is(aGot, context.Canceled) {
+		problems = append(problems, fmt.Sprintf("cancelled call returned %v, not the context's error", aGot))
+	}
+	tr := sftp.VerifCCTrace(cl)
+	cn := c.Case("cctrace", kvs("mode", "cancel"), kvi("others", k), kvi("i", i), "tr="+traceJoin(tr))
+	c.NT(cn)
+	c.Obs(cn, "accepted=1")
+	if len(problems) > 0 {
+		c.Oracle(cn, false, problems[0])
+	} else {
+		c.Oracle(cn, true, "")
+	}
+	c.Stat("cct_cancel_cases")
+	c1.Close()
+	cl.Close()
 }
